@@ -59,6 +59,10 @@ def _lets(fn):
     return {n: e for n, e in inits.items() if count.get(n, 0) == 1}
 
 
+def _r(e):
+    return A.render(A.norm_ast(e))
+
+
 def _inline(text, lets, depth=0):
     if depth > 3 or not lets:
         return text
@@ -66,7 +70,7 @@ def _inline(text, lets, depth=0):
     def sub(m):
         w = m.group(0)
         if w in lets:
-            r = A.render(lets[w])
+            r = _r(lets[w])
             if len(r) > 400:
                 return w
             inner = _inline(r, {k: v for k, v in lets.items() if k != w}, depth + 1)
@@ -86,18 +90,110 @@ def _within(node, part):
     return a is not None and s is not None and a <= s[0] and s[1] <= b
 
 
+def _atomic(c):
+    """no top-level `&&` / `||` / comparison: safe to strip a leading `!` from"""
+    depth = 0
+    for i, ch in enumerate(c):
+        if ch in "([{":
+            depth += 1
+        elif ch in ")]}":
+            depth -= 1
+        elif depth == 0 and (c.startswith("&&", i) or c.startswith("||", i) or c.startswith("==", i) or c.startswith("!=", i) or ch in "<>"):
+            return False
+    return True
+
+
+def _polar(cond, positive):
+    """`if C` / `if !(C)` with double negations removed, so that `if c {..} else {X}` and `if !c {X}` read alike"""
+    c = cond.strip()
+    while True:
+        if c.startswith("(") and c.endswith(")") and _atomic(c[1:-1]) and c.count("(") == c.count(")"):
+            inner = c[1:-1]
+            # only strip a pair that encloses the whole condition
+            depth = 0
+            whole = True
+            for i, ch in enumerate(c):
+                depth += ch == "("
+                depth -= ch == ")"
+                if depth == 0 and i < len(c) - 1:
+                    whole = False
+                    break
+            if whole:
+                c = inner
+                continue
+        if c.startswith("!") and not c.startswith("!=") and _atomic(c[1:]):
+            c = c[1:]
+            positive = not positive
+            continue
+        if c.endswith(".is_none()") and _atomic(c):
+            c = c[: -len(".is_none()")] + ".is_some()"
+            positive = not positive
+            continue
+        m = re.fullmatch(r"([^!=<>&|]+)!=([^!=<>&|]+)", c)
+        if m:
+            c = f"{m.group(1)}=={m.group(2)}"
+            positive = not positive
+            continue
+        break
+    return f"if {c}" if positive else f"if !({c})"
+
+
+def _diverges(block):
+    """does a block always leave (its last statement is return / continue / break / a panic macro)?"""
+    st = block.get("stmts") if isinstance(block, dict) else None
+    if not st:
+        return False
+    last = st[-1]
+    e = last.get("0") if A.kind(last) == "Stmt::Expr" else None
+    if e is not None and A.kind(e) in ("Expr::Return", "Expr::Continue", "Expr::Break"):
+        return True
+    if A.kind(last) in ("Stmt::Macro",) and A.path_last(last["mac"]["path"]) in ("panic", "unreachable", "unimplemented"):
+        return True
+    if e is not None and A.kind(e) == "Expr::Macro" and A.path_last(e["mac"]["path"]) in ("panic", "unreachable", "unimplemented"):
+        return True
+    return False
+
+
+def _is_catch_all(pat):
+    k = A.kind(pat)
+    return k == "Pat::Wild" or (k == "Pat::Ident" and not pat.get("subpat"))
+
+
 def guard_chain(fn, site, parents, lets):
+    """canonical conditions leading to `site`: enclosing if / if-let / match arms, plus - for every enclosing block -
+    the negated conditions of earlier `if C { <always leaves> }` statements (so `if C { X }` and `if !C { return } X`
+    read alike). `if let P = E` and `match E { P => .. }` read alike (`E ~ P` / `E !~ P`); a catch-all or last arm is
+    the complement of the earlier unguarded patterns."""
     chain = []
     for i, p in enumerate(parents):
         k = A.kind(p)
-        if k == "Expr::If":
+        if k == "Block":
+            # earlier early-exit statements of this block
+            nxt = parents[i + 1] if i + 1 < len(parents) else site
+            for st in p["stmts"]:
+                if st is nxt or (A.kind(st) == "Stmt::Expr" and st.get("0") is nxt) or _within(site, st):
+                    break
+                e = st.get("0") if A.kind(st) == "Stmt::Expr" else None
+                if e is not None and A.kind(e) == "Expr::If" and not e.get("else_branch") and _diverges(e["then_branch"]):
+                    # an early *failure* exit is itself a refusal with its own ledger row; only neutral exits
+                    # (`return Ok(..)`, `continue`, `return None`) shape what follows
+                    tail = A.render_stmt(e["then_branch"]["stmts"][-1])
+                    if tail.startswith("return Err(") or "panic!" in tail:
+                        continue
+                    c = e["cond"]
+                    if A.kind(c) == "Expr::Let":
+                        chain.append(f"{_inline(_r(c['expr']), lets)} !~ {A.render_pat(c['pat'])}")
+                    else:
+                        chain.append(_polar(_inline(_r(c), lets), False))
+        elif k == "Expr::If":
             if _within(site, p["cond"]):
                 continue
-            cond = _inline(A.render(p["cond"]), lets)
-            if _within(site, p["then_branch"]):
-                chain.append(f"if {cond}")
+            c = p["cond"]
+            pos = _within(site, p["then_branch"])
+            if A.kind(c) == "Expr::Let":
+                chain.append(f"{_inline(_r(c['expr']), lets)} {'~' if pos else '!~'} {A.render_pat(c['pat'])}")
             else:
-                chain.append(f"if !({cond})")
+                chain.append(_polar(_inline(_r(c), lets), pos))
         elif k == "Arm":
             mt = parents[i - 1] if i and A.kind(parents[i - 1]) == "Expr::Match" else None
             if mt is None:
@@ -109,11 +205,10 @@ def guard_chain(fn, site, parents, lets):
             gexpr = g[1] if isinstance(g, list) and len(g) > 1 else g
             if gexpr is not None and isinstance(gexpr, dict) and _within(site, gexpr):
                 continue
-            pat = A.render_pat(p["pat"])
-            gtxt = (" if " + _inline(A.render(gexpr), lets)) if isinstance(gexpr, dict) else ""
-            scr = _inline(A.render(mt["expr"]), lets) if mt else "?"
-            # earlier arms with a guard narrow this arm: record them too
-            earlier = []
+            gtxt = (" if " + _inline(_r(gexpr), lets)) if isinstance(gexpr, dict) else ""
+            scr = _inline(_r(mt["expr"]), lets) if mt else "?"
+            earlier_guarded, earlier_plain = [], []
+            is_last = False
             if mt:
                 for a in mt["arms"]:
                     if a is p:
@@ -121,11 +216,20 @@ def guard_chain(fn, site, parents, lets):
                     ag = a.get("guard")
                     agx = ag[1] if isinstance(ag, list) and len(ag) > 1 else ag
                     if isinstance(agx, dict):
-                        # only a *guarded* earlier arm takes inputs away from a later arm with a disjoint pattern
-                        earlier.append(A.render_pat(a["pat"]) + " if " + _inline(A.render(agx), lets))
-            chain.append(f"match {scr} [after {' | '.join(earlier)}] => {pat}{gtxt}" if earlier else f"match {scr} => {pat}{gtxt}")
+                        earlier_guarded.append(A.render_pat(a["pat"]) + " if " + _inline(_r(agx), lets))
+                    else:
+                        earlier_plain.append(A.render_pat(a["pat"]))
+                is_last = mt["arms"][-1] is p
+            if not gtxt and earlier_plain and (_is_catch_all(p["pat"]) or (is_last and len(mt["arms"]) == 2)):
+                # complement of what the earlier unguarded arms take (`Err(_)` after `Ok(x)`, `_`, a binding)
+                txt = f"{scr} !~ {'|'.join(sorted(earlier_plain))}"
+            else:
+                txt = f"{scr} ~ {A.render_pat(p['pat'])}{gtxt}"
+            if earlier_guarded:
+                txt += f" [after {' | '.join(earlier_guarded)}]"
+            chain.append(txt)
         elif k == "Expr::While":
-            chain.append(f"while {_inline(A.render(p['cond']), lets)}")
+            chain.append(f"while {_inline(_r(p['cond']), lets)}")
     return chain
 
 
@@ -183,8 +287,50 @@ def collect(ctx):
                 base = f"{rel}::{fn.qual}:{kind_}:{(msg or '<no message>')[:70]}"
                 per[base] = per.get(base, 0) + 1
                 key = base if per[base] == 1 else f"{base}#{per[base]}"
-                canon = A.alpha(" && ".join(chain))
-                out.append({"key": key, "file": rel, "fn": fn.qual, "kind": kind_, "message": msg, "guard": canon, "raised": raised, "where": ctx.where(f, x) if hasattr(ctx, "where") else ""})
+                chain = [re.sub(r"^(.*)\.filter\(\|_\|(.*)\) ~ Some\((.*)\)$", r"\1 ~ Some(\3) if \2", c) for c in chain]
+                raw_chain = list(chain)
+                canon = A.alpha(" && ".join(chain), numbered=False)
+                out.append({"key": key, "file": rel, "fn": fn.qual, "kind": kind_, "message": msg, "guard": canon, "chain": raw_chain, "node": x, "parents": ps, "fnobj": fn, "raised": raised, "where": ctx.where(f, x) if hasattr(ctx, "where") else ""})
+    # a private helper referenced exactly once in its file is read in the context of that reference: extracting a
+    # piece of a function into a helper (or inlining it back) leaves the chain unchanged
+    by_file = {}
+    for s_ in out:
+        by_file.setdefault(s_["file"], []).append(s_)
+    for rel, sites in by_file.items():
+        f = ctx.files[rel]
+        fns = {fn.qual: fn for fn in A.functions(f)}
+        refs = {}  # fn name -> [(containing fn, node, parents)]
+        for fn in fns.values():
+            if fn.block is None:
+                continue
+            for x, ps in A.walk(fn.block):
+                k = A.kind(x)
+                nm = None
+                if k == "Expr::Path":
+                    nm = A.path_str(x).split("::")[-1]
+                elif k == "Expr::MethodCall":
+                    nm = x["method"]["sym"]
+                if nm:
+                    refs.setdefault(nm, []).append((fn, x, ps))
+        for _round in range(2):
+            for s_ in sites:
+                fn = s_["fnobj"]
+                if s_.get("prefixed", 0) > _round:
+                    continue
+                same_name = [g for g in fns.values() if g.name == fn.name]
+                r = [t for t in refs.get(fn.name, []) if t[0] is not fn]
+                vis = fn.node.get("vis")
+                private = vis in (None, "Visibility::Inherited") or A.kind(vis) in (None, "Visibility::Inherited")
+                if len(same_name) == 1 and len(r) == 1 and private and fn.trait_ is None:
+                    g, node, ps = r[0]
+                    pre = guard_chain(g, node, ps, _lets(g))
+                    s_["chain"] = pre + s_["chain"]
+                    s_["fnobj"] = g
+                    s_["prefixed"] = s_.get("prefixed", 0) + 1
+                    s_["guard"] = A.alpha(" && ".join(s_["chain"]), numbered=False)
+    for s_ in out:
+        for k_ in ("node", "parents", "fnobj", "chain", "prefixed"):
+            s_.pop(k_, None)
     return out
 
 
@@ -201,7 +347,7 @@ def rule_reject_ledger(ctx):
         raise A.AnchorLost("rules/reject_ledger.json", "ledger missing")
     led = json.load(open(LEDGER))["sites"]
     cur = collect(ctx)
-    by_fn_cur, by_fn_led = {}, {}
+    by_f_cur, by_f_led = {}, {}
     for s in cur:
         if not s["raised"]:
             ctx.report(
@@ -210,18 +356,22 @@ def rule_reject_ledger(ctx):
                 f"`{s['fn']}` constructs the diagnostic `{(s['message'] or '')[:70]}` but neither returns it, wraps it in `Err(..)` nor hands it to an error combinator: the refusal is silently dropped",
                 {},
             )
+    sem_fns = {fk for fk in SEMANTIC}
     for s in cur:
-        by_fn_cur.setdefault((s["file"], s["fn"]), []).append(s)
+        by_f_cur.setdefault(s["file"], []).append(s)
     for key, row in led.items():
-        by_fn_led.setdefault((row["file"], row["fn"]), []).append(dict(row, key=key))
-    for fk in sorted(set(by_fn_cur) | set(by_fn_led)):
-        c = by_fn_cur.get(fk, [])
-        l = by_fn_led.get(fk, [])
-        ctx.instance(f"reject:{fk[0]}::{fk[1]}", sample={"fn": f"{fk[0]}::{fk[1]}", "sites": len(c), "guards": [x["guard"][:120] for x in c][:3]})
-        if fk in SEMANTIC:
-            if len(c) != len(l):
-                ctx.report(f"reject:count:{fk[0]}::{fk[1]}", c[0]["where"] if c else fk[0], f"`{fk[1]}` has {len(c)} diagnostic sites, the ledger has {len(l)}", {})
-            continue
+        by_f_led.setdefault(row["file"], []).append(dict(row, key=key))
+    for rel in sorted(set(by_f_cur) | set(by_f_led)):
+        c = by_f_cur.get(rel, [])
+        l = by_f_led.get(rel, [])
+        ctx.instance(f"reject:{rel}", sample={"file": rel, "sites": len(c), "guards": [x["guard"][:120] for x in c][:3]})
+        # sites decided semantically elsewhere are only counted
+        cs = [x for x in c if (rel, x["fn"]) in sem_fns]
+        ls = [x for x in l if (rel, x["fn"]) in sem_fns]
+        if len(cs) != len(ls):
+            ctx.report(f"reject:count:{rel}", cs[0]["where"] if cs else rel, f"{rel}: {len(cs)} diagnostic sites in the semantically decided merge functions, the ledger has {len(ls)}", {})
+        c = [x for x in c if (rel, x["fn"]) not in sem_fns]
+        l = [x for x in l if (rel, x["fn"]) not in sem_fns]
         cg = sorted(x["guard"] for x in c)
         lg = sorted(x["guard"] for x in l)
         if cg == lg:
@@ -233,33 +383,41 @@ def rule_reject_ledger(ctx):
                 extra.remove(g)
             else:
                 missing.append(g)
-        # pair what is left: same count -> "changed", else new / gone
-        cur_left = [x for x in c if x["guard"] in extra]
-        led_left = [x for x in l if x["guard"] in missing]
+        cur_left = []
+        pool = list(extra)
+        for x in c:
+            if x["guard"] in pool:
+                pool.remove(x["guard"])
+                cur_left.append(x)
+        led_left = []
+        pool = list(missing)
+        for x in l:
+            if x["guard"] in pool:
+                pool.remove(x["guard"])
+                led_left.append(x)
         while cur_left and led_left:
             a = cur_left.pop(0)
-            # the ledger row with the same message if any, else the first
-            b = next((x for x in led_left if x.get("message") == a["message"]), led_left[0])
+            b = next((x for x in led_left if x.get("message") == a["message"]), None) or next((x for x in led_left if x.get("fn") == a["fn"]), led_left[0])
             led_left.remove(b)
             ctx.report(
-                f"reject:changed:{fk[0]}::{fk[1]}:{A.alpha(b['guard'])[:80]}",
+                f"reject:changed:{rel}::{b['fn']}:{b['guard'][:80]}",
                 a["where"],
-                f"the condition under which `{fk[1]}` reports `{(a['message'] or '')[:70]}` changed: audited `{b['guard'][:240] or 'always'}`, now `{a['guard'][:240] or 'always'}`: "
+                f"the condition under which `{a['fn']}` reports `{(a['message'] or '')[:70]}` changed: audited `{b['guard'][:240] or 'always'}`, now `{a['guard'][:240] or 'always'}`: "
                 "inputs that were rejected are now accepted silently, or supported inputs are now refused (if intended and reviewed: bin/mkledger)",
                 {"ledger": b["guard"], "now": a["guard"]},
             )
         for a in cur_left:
             ctx.report(
-                f"reject:new:{fk[0]}::{fk[1]}:{a['guard'][:80]}",
+                f"reject:new:{rel}::{a['fn']}:{a['guard'][:80]}",
                 a["where"],
-                f"`{fk[1]}` has a diagnostic site the ledger does not know (`{(a['message'] or '')[:70]}`, reached under `{a['guard'][:240] or 'always'}`): a new refusal - inputs the documentation supports may now be rejected",
+                f"`{a['fn']}` has a diagnostic site the ledger does not know (`{(a['message'] or '')[:70]}`, reached under `{a['guard'][:240] or 'always'}`): a new refusal - inputs the documentation supports may now be rejected",
                 {"guard": a["guard"]},
             )
         for b in led_left:
             ctx.report(
-                f"reject:gone:{fk[0]}::{fk[1]}:{b['guard'][:80]}",
-                fk[0],
-                f"the diagnostic `{(b.get('message') or '')[:70]}` of `{fk[1]}` (condition `{b['guard'][:240] or 'always'}`) no longer exists: what it refused (a contradictory, duplicated or unsupported attribute / shape) is now silently accepted or handled elsewhere",
+                f"reject:gone:{rel}::{b['fn']}:{b['guard'][:80]}",
+                rel,
+                f"the diagnostic `{(b.get('message') or '')[:70]}` of `{b['fn']}` (condition `{b['guard'][:240] or 'always'}`) no longer exists: what it refused (a contradictory, duplicated or unsupported attribute / shape) is now silently accepted or handled elsewhere",
                 {},
             )
     ctx.floor("diagnostic sites", len(cur), 80)
